@@ -63,7 +63,8 @@ def build_runner(case, log, workdir=None):
             # parameters are added in an order different from the sorted one
             for p in pc.ADD_ORDER:
                 if p < len(grid):
-                    self.params.add(pc.NAMES[p], [pc.VALUES[p][x] for x in grid[p]])
+                    vals = [pc.VALUES[p][x] for x in grid[p]]
+                    self.params.add(pc.NAMES[p], np.array(vals) if p == 2 else vals)
             for k, val in pc.FIXED.items():
                 self.params.add(k, val)
             for p in reversed(range(len(grid))):
